@@ -488,6 +488,116 @@ func Lobes(rng *fw.Rng, W int64) Poly {
 	return p
 }
 
+// LongFlat: a shell whose bottom edge runs 2^k pixels (k up to D-4, D = deepest level) and rises by one or two pixels,
+// with a small hole next to one of its ends, in the pixel row of that end; the far end of the long edge sits on (or just
+// inside) the inclusive side of its pixel. Containment tests of the hole's vertices against such an edge work on slopes of
+// 2^-k at ordinates of 2^D pixels. Any of the 8 symmetries of the square. Coordinates in q (a pixel is 4 q).
+func LongFlat(rng *fw.Rng, D int) Poly {
+	kmax := D - 4
+	if kmax < 6 {
+		kmax = 6
+	}
+	k := 6 + rng.Intn(kmax-5)
+	if kmax > 16 && rng.Chance(2, 3) { // on deep grids mostly very long edges
+		k = kmax - rng.Intn(8)
+	}
+	dpx := int64(1)<<uint(k) + int64(fw.Pick(rng, []int{0, 0, 0, -1, 1, 3}))
+	d := 4 * dpx
+	rise := int64(fw.Pick(rng, []int{1, 1, 2})) * 4
+	h := int64(20+rng.Intn(40)) * 4
+	qy := rise + int64(fw.Pick(rng, []int{0, 0, 1})) // on the inclusive (bottom) side of its pixel row, or just inside
+	qx := d + int64(1+rng.Intn(3))
+	shell := []P{{2, 2}, {qx, qy}, {qx, h + 2}, {2, h + 2}}
+	var hole []P
+	if rng.Chance(3, 4) { // next to the far end: first vertex in the pixel left of that end, in its row
+		hole = []P{{d - 2, rise + 2}, {d - 18, rise + 18}, {d - 2, rise + 18}}
+	} else { // next to the near end
+		hole = []P{{6 + 4, 6}, {6 + 4, 22}, {6 + 20, 22}}
+	}
+	p := Poly{shell, hole}
+	S := max(qx, h+2) + 2
+	kk, mirror := rng.Intn(4), rng.Bool()
+	for ri := range p {
+		for vi, v := range p[ri] {
+			x, y := v[0], v[1]
+			if mirror {
+				x = S - x
+			}
+			for r := 0; r < kk; r++ {
+				x, y = S-y, x
+			}
+			p[ri][vi] = P{x, y}
+		}
+		st := rng.Intn(len(p[ri]))
+		p[ri] = append(append([]P{}, p[ri][st:]...), p[ri][:st]...)
+	}
+	return p
+}
+
+// Saw: in units of 1/64 pixel (the caller places it with q = pixel/64). A valid ring whose snapped vertex sequence is
+// A p1..pk A B A B A B q A B: a body, then T thin teeth from pixel A into the neighbouring pixel B (20 to 10 teeth per pixel
+// width), a detour through one or two foreign pixels back into A, E more teeth, and the ring's vertex array starts in A right
+// behind the last tooth. This is the input class that reaches the multi-period branches of the zigzag removal with a valid
+// polygon. T, E, tooth pitch, body and detour random; any of the 8 symmetries; the start vertex is rotated in half of the cases.
+func Saw(rng *fw.Rng, W int64) Poly {
+	u := func(x, y float64) P { return P{int64(math.Round(x * 64)), int64(math.Round((1 - y) * 64))} } // mirrored in y = 0.5 as designed: ccw
+	T := 2 + rng.Intn(5)
+	E := rng.Intn(2)
+	pitch := 0.05 + 0.01*float64(rng.Intn(6))
+	if float64(T+E+2)*pitch > 0.62 {
+		pitch = 0.62 / float64(T+E+2)
+	}
+	jit := func() float64 { return float64(rng.Intn(7)-3) / 64 }
+	x := 0.28
+	ring := []P{}
+	var teeth []P
+	for i := 0; i < T; i++ {
+		teeth = append(teeth, u(x, .50+jit()), u(x+pitch/2, 1.5+jit()))
+		x += pitch
+	}
+	// detour: through the pixel diagonally across from B, sometimes through two pixels
+	detour := []P{u(2.3+jit(), 1.6+jit())}
+	if rng.Chance(1, 3) {
+		detour = append(detour, u(2.6+jit(), 0.6+jit()))
+	}
+	var extra []P
+	x += pitch
+	a0 := u(x-pitch*0.6, .30) // in A, below the bases, left of the extra tooth: the closing edge comes down beside that tooth
+	for i := 0; i < E; i++ {
+		extra = append(extra, u(x, .50+jit()), u(x+pitch/2, 1.3+jit()))
+		x += pitch
+	}
+	body := []P{u(2.5+float64(rng.Intn(40))/64, -.50-float64(rng.Intn(20))/64), u(1.4+float64(rng.Intn(20))/64, -1.5-float64(rng.Intn(30))/64)}
+	if rng.Chance(1, 3) {
+		body = append(body[:1], append([]P{u(3.2, -2.2)}, body[1:]...)...)
+	}
+	ring = append(ring, a0)
+	ring = append(ring, body...)
+	ring = append(ring, teeth...)
+	if E > 0 || rng.Chance(2, 3) {
+		ring = append(ring, detour...)
+	}
+	ring = append(ring, extra...)
+	// symmetries about the corner of pixel A
+	k, mirror := rng.Intn(4), rng.Bool()
+	for i, v := range ring {
+		xx, yy := v[0], v[1]
+		if mirror {
+			xx = 64 - xx
+		}
+		for r := 0; r < k; r++ {
+			xx, yy = 64-yy, xx
+		}
+		ring[i] = P{xx, yy}
+	}
+	if rng.Bool() {
+		st := rng.Intn(len(ring))
+		ring = append(append([]P{}, ring[st:]...), ring[:st]...)
+	}
+	_ = W
+	return Poly{ring}
+}
+
 // Degenerate: rings of 0, 1 or 2 points, rings repeating one point, polygons without rings (C06 only).
 func Degenerate(rng *fw.Rng, W int64) Poly {
 	if rng.Chance(1, 12) {
@@ -723,6 +833,8 @@ func ByName(name string, rng *fw.Rng, W int64) Poly {
 		return Nest(rng, W)
 	case "lobes":
 		return Lobes(rng, W)
+	case "saw":
+		return Saw(rng, W)
 	case "degenerate":
 		return Degenerate(rng, W)
 	case "big":
